@@ -140,7 +140,7 @@ func interpSnap(ctx *Ctx, r *Report, pkg, name string) {
 	res, _ := ev.evalRoot(fn)
 	leaves := map[string]*Term{}
 	leafTerms("", res, leaves)
-	pn := func(i int) string { return fn.Params[i].Name() }
+	pn := func(i int) string { return paramName(fn, i) }
 	p1, p2, v1, v2, x := pn(0), pn(1), pn(2), pn(3), pn(4)
 	// the epsilon tests: leaves whose atoms contain v1 resp. v2 only
 	which := func(c *Term) int {
